@@ -1,6 +1,6 @@
 """C08 - the signing lottery (very narrow; DESIGN.md section 4, C08)."""
 from core import glob_match
-from engine import fn_origins, loop_body_entry
+from engine import fn_origins, loop_body_entry, Sink
 from props.common import Ctx, fn_short  # noqa: F401
 
 EXPLANATION = (
@@ -246,6 +246,61 @@ def _roots(body, l, der, depth=6):
 _run0 = run
 
 
+def run_signer_stake(ctx):
+    """The signer decides the lottery with the stake of its initializer; the verifier with the registered stake.  They agree because a signer
+    is only created for an initializer whose WHOLE entry (key and stake) is found in the closed registration (seed C08-5: the look-up compared
+    the key only, so an initializer carrying another stake got a signer)."""
+    R = ctx.report
+    R.clause('e', 'a signer exists only for an initializer whose (key, stake) entry is registered')
+    LOOK = 'mithril_stm::protocol::key_registration::register::ClosedKeyRegistration::get_signer_index_for_registration'
+    CRE = 'mithril_stm::protocol::key_registration::closed_registration_entry::ClosedRegistrationEntry'
+    f = ctx.try_fn('e', LOOK)
+    if f is None:
+        return
+    whole = False
+    getters = set()
+    for g in f.family():
+        for c in g.body.calls():
+            for n in c.names():
+                if glob_match('<' + CRE + ' as std::cmp::PartialEq>::eq', n) or glob_match('<' + CRE + ' as std::cmp::PartialEq>::ne', n) or \
+                        glob_match('<&' + CRE + ' as std::cmp::PartialEq*>::eq', n) or (n.endswith('PartialEq>::eq') and 'ClosedRegistrationEntry' in n) or \
+                        (n.endswith(('PartialEq>::eq', 'PartialEq>::ne', 'Ord>::cmp')) and any('ClosedRegistrationEntry' in g.body.lty(a[1][0]) for a in c.args if a[0] in ('copy', 'move'))):
+                    whole = True
+                if 'ClosedRegistrationEntry::get_' in n:
+                    getters.add(n.rsplit('::', 1)[-1])
+    inst = 'get_signer_index_for_registration matches the whole registration entry (verification key and stake)'
+    if whole or {'get_stake', 'get_verification_key_for_concatenation'} <= getters:
+        R.ok('e', 'R4', inst, 'entry equality' if whole else 'fields compared: %s' % sorted(getters), f.loc())
+    else:
+        R.violation('e', 'R4', inst, 'signer-lookup:whole-entry', 'the look-up compares %s only: an initializer whose stake differs from the registered one obtains a signer, which then decides '
+                    'the lottery with a stake the verifier does not use' % (sorted(getters) or 'neither the entry nor both of its fields'), f.loc())
+    # the derived equality of the entry covers its fields
+    ctx.field_cover('e', CRE, '<' + CRE + ' as std::cmp::PartialEq>::eq', ret_consumer=True, desc='(entry equality)')
+    # and a signer is created only through that look-up
+    from engine import track_result, success_reachable
+    tc = ctx.try_fn('e', 'mithril_stm::protocol::participant::initializer::Initializer::try_create_signer')
+    if tc is not None:
+        tb = tc.body
+        looks = [c for c in tb.calls() if LOOK in c.names()]
+        rem = set()
+        for c in looks:
+            rem |= track_result(tb, c.dest[0], +1).success_edges
+        inst2 = 'Initializer::try_create_signer: a signer is returned only if the look-up found the entry'
+        if looks and rem and not success_reachable(tb, rem, 'ok'):
+            R.ok('e', 'R1', inst2, '', tc.loc())
+        else:
+            R.violation('e', 'R1', inst2, 'signer-lookup:gates', 'look-up sites %d; Ok reachable without its Some outcome' % len(looks), tc.loc())
+        # the entry looked up carries the initializer's own stake and key
+        for c in looks:
+            og = fn_origins(tc, c.args[1], True)
+            if has(og, 'pty:Initializer.stake') and (has(og, 'pty:Initializer.bls_verification_key_proof_of_possession') or has(og, 'pty:Initializer.*verification_key*')):
+                R.ok('e', 'R5', 'Initializer::try_create_signer: the entry looked up is built from the initializer\'s own key and stake', '', tc.loc())
+            else:
+                R.violation('e', 'R5', 'Initializer::try_create_signer: the entry looked up is built from the initializer\'s own key and stake', 'signer-lookup:entry-origin',
+                            str(sorted(o for o in og if o.startswith('pty:'))[:6]), tc.loc())
+
+
 def run(ctx):  # noqa: F811
     _run0(ctx)
     run_inputs(ctx)
+    run_signer_stake(ctx)
